@@ -433,9 +433,14 @@ def fast_sir_unweighted_scripted(scn, ref, EoN):
         sim = EoN.fast_SIR(G, tau, gamma, **kw)
         hist = {u: (list(sim.node_history(u)[0]), list(sim.node_history(u)[1])) for u in nodes}
         return hist, [tuple(x) for x in sim.transmissions()]
-    leaf = scripted.run_scripted(fn, [], delays=delays, decider=decider)
+    try:
+        leaf = scripted.run_scripted(fn, [], delays=delays, decider=decider)
+    except scripted.Unmodelled as ex:
+        return [("protocol-unmodelled", "the scripted random source cannot follow the implementation: %s" % ex)]
     if leaf.error is not None:
-        return [("exception:%s" % type(leaf.error).__name__, repr(leaf.error))]
+        if not bad:
+            return [("exception:%s" % type(leaf.error).__name__, repr(leaf.error))]
+        return bad[:1] + [("exception-after-protocol-divergence", repr(leaf.error))]
     out = list(bad)
     # the scenario the code actually realised: non-recipients never transmit
     eff = dict(scn)
